@@ -4,7 +4,7 @@ REGISTRY = {
     'C06': ['base_core', 'handles', 'connect', 'shared_contract', 'core', 'attach', 'coro'],
     'C02': ['core', 'result', 'entry', 'attach', 'handles'],
     'C03': ['base_core', 'handles', 'core', 'event', 'strand', 'when', 'intrusive_ptr', 'connect', 'ownership', 'entry', 'shared_contract', 'coro'],
-    'C04': ['base_core', 'strand', 'event', 'coro_mutex', 'spinlock'],
+    'C04': ['base_core', 'strand', 'event', 'coro_mutex', 'spinlock', 'shared_mutex'],
     'C05': ['thread_pool', 'strand', 'core', 'handles', 'ownership', 'entry', 'attach', 'coro'],
     'C07': ['strand'],
     'C08': ['thread_pool'],
@@ -96,10 +96,11 @@ CLAIMS = {
                 'gives away plain data (Result, continuation object, job objects, waiter objects, the reference that keeps an object alive) must carry '
                 'release, a step that takes it must carry acquire (or be followed by an acquire fence before returning true, AtomicCounter::SubEqual in both '
                 'TSAN variants); covered words: callback word unique and shared (SetCallbackImpl, SetResultImpl, ResetImpl, Empty), strand word (Submit, Call, '
-                'Drop), OneShotEvent head (TryAdd, SetImpl, Ready), reference / wait counter.',
+                'Drop), OneShotEvent head (TryAdd, SetImpl, Ready), reference / wait counter, detail::Spinlock (lock acquire / unlock release), the coroutine SharedMutex words '
+                '(the step that makes a coroutine a holder carries acquire, the step that gives a hold up - and every payment of a first writer\'s debt - carries release).',
         'note': 'A sufficient discipline on the modelled hand-offs, not an exploration of weak-memory executions (level other): trusted meta-theorem that '
                 'owner-only access plus release->acquire ownership transfer is data-race free. coroutine Mutex sender word (lock acquire / unlock release / enqueue release / take-over acquire). Not under the discipline: WhenAny/WhenAll state words (argued '
-                'to move no plain data), coroutine SharedMutex words, FairThreadPool and MutexEvent (mutex-protected: monitor proofs of C08/C11), '
+                'to move no plain data), FairThreadPool and MutexEvent (mutex-protected: monitor proofs of C08/C11), '
                 'WaitGroup::Count, Injector.',
         'design': 'DESIGN.md 6 C04, 5.F',
     },
